@@ -9,7 +9,7 @@ def wire_ops(run):
     return [(d['opcode'] if d else None, d['payload'] if d else None) for w in run.sock.out[1:] for d in ref.decode_all(w)]
 
 
-def client_first(at, server_close, trailing, cuts):
+def client_first(at, server_close, trailing, cuts, ping=False):
     """application calls close(1001, b'going') at event `at`; server replies with its Close"""
     state = dict(closed_called=False, late_errors=[], late_writes=0)
 
@@ -32,7 +32,7 @@ def client_first(at, server_close, trailing, cuts):
                     state['late_errors'].append(repr(e))
                 if len(run.sock.out) != before:
                     state['late_writes'] += 1
-    stream = ref.server_frame(1, b'first') + ref.server_frame(2, b'second') + server_close + trailing
+    stream = ref.server_frame(1, b'first') + ref.server_frame(2, b'second') + (ref.server_frame(9, b'in-flight') if ping else b'') + server_close + trailing
     run = harness.drive(stream=stream, react=react, cuts=cuts, eof=True, connect_kwargs=dict(ping_rate=0))
     names = [e.name for e in run.events]
     ops = wire_ops(run)
@@ -50,6 +50,8 @@ def client_first(at, server_close, trailing, cuts):
         return 'does not end Closed -> graceful Disconnected with the socket closed: %r' % names[-3:]
     if at in ('ready', 'connected') and names.count('text') != 1:
         return 'incoming messages not delivered while closing: %r' % names
+    if ping and names.count('ping') != 1:
+        return 'a Ping that arrived while closing was not delivered: %r' % names
     return None
 
 
@@ -99,11 +101,11 @@ def replay(obligation, extra):
     for at in ('connected', 'ready', 'text', 'binary'):
         for sc in closes:
             for trailing in (b'', ref.server_frame(1, b'after')):
-                for cuts in (None, range(1, 600)):
+                for cuts, ping in ((None, False), (range(1, 600), False), (None, True)):
                     tried += 1
-                    err = client_first(at, sc, trailing, cuts)
+                    err = client_first(at, sc, trailing, cuts, ping)
                     if err:
-                        return dict(found=True, input='application calls close(1001, b"going") at the %s event; server then sends %s%s%s' % (at, sc.hex(), ' and more frames' if trailing else '', ', one byte per read' if cuts else ''),
+                        return dict(found=True, input='application calls close(1001, b"going") at the %s event; server then sends %s%s%s%s' % (at, 'a Ping and then ' if ping else '', sc.hex(), ' and more frames' if trailing else '', ', one byte per read' if cuts else ''),
                                     expected='exactly one Close (1001, going), later sends refused, Closed, graceful Disconnected, socket closed', observed=err)
     for sc in closes:
         for ac in (False, True):
